@@ -46,6 +46,13 @@ def history_step(rng, h, lang, names, ops, kind):
                     lang.parse(f"({d[0]} : {names[d[3][1]]}({', '.join([b] * len(d[3][2]))}))").fix()
                 else:
                     lang.parse(f"({d[0]} : {b})").fix()
+        elif kind == "use_op":
+            # use one operator once, with arguments made for its parameters
+            f = rng.choice([o for o in ops if o[2]])
+            tree, inner = ("op", f[0]), {}
+            for p_ in f[2]:
+                tree = ("app", tree, c04.gen_expr(rng, h, ops, p_, 1, 0, inner))
+            lang.parse(c04.render(tree, names)).fix()
         elif kind == "validate":
             lang.validate()
         elif kind == "print":
@@ -80,7 +87,7 @@ def history_step(rng, h, lang, names, ops, kind):
         pass
 
 
-KINDS = ["parse", "parse", "parse", "parsefail", "parsefail", "use_data", "validate", "print", "instantiate",
+KINDS = ["parse", "parse", "parse", "parsefail", "parsefail", "use_data", "use_op", "use_op", "validate", "print", "instantiate",
          "apply", "parse_type", "graph", "vocab", "query"]
 
 
@@ -113,13 +120,21 @@ def main(tier: str, seed: int, replay: str | None = None) -> int:
         ops = c04.gen_language(rng, h)
         try:
             lang, names = c04.build_language(h, ops)
-        except Exception:  # noqa: BLE001
+        except Exception as e:  # noqa: BLE001 - a generated schema may be inconsistent at declaration
+            if isinstance(e, (NameError, AttributeError, KeyError, SyntaxError)):
+                raise
             continue
         progs = []
         for _ in range(nprobe):
             ninputs = rng.choice([0, 0, 1])
             input_types = [("o", rng.randrange(5, 5 + h.nbase), []) for _ in range(ninputs)]
             tree = c04.gen_expr(rng, h, ops, None, 3, ninputs)
+            if rng.random() < 0.35:
+                # a shallow probe of one operator with arguments made for its parameters
+                f = rng.choice([o for o in ops if o[2]])
+                tree, inner = ("op", f[0]), {}
+                for p_ in f[2]:
+                    tree = ("app", tree, c04.gen_expr(rng, h, ops, p_, 1, ninputs, inner))
             if tree[0] != "app":
                 continue
             # a history on the shared language, then the probe
@@ -167,7 +182,7 @@ def main(tier: str, seed: int, replay: str | None = None) -> int:
         "evaluations": n, "distinct_nontrivial": len(distinct), "disagreements": dis,
         "rule": "one Language per generated language; before each probe a history of 1-12 operations drawn from "
                 "valid parses, failing parses (bracket, unknown token, missing input, duplicated text, leading colon), "
-                "using a constant at one particular type, validate, printing signatures, instantiating/fixing operator types, applying them, parse_type with "
+                "using a constant at one particular type, using one operator on arguments made for its parameters, validate, printing signatures, instantiating/fixing operator types, applying them, parse_type with "
                 "wildcards, add_expr, add_vocabulary, query construction; histories accumulate over the probes of a "
                 "language; non-trivial = history of >= 3 operations",
         "outcome_distribution": stats, "samples": samples, "exhaustive": False})
